@@ -305,6 +305,9 @@ func init() {
 			if n := len(lst); n > 0 {
 				v := lst[n-1]
 				fr.i.pools[p] = lst[:n-1]
+				if fr.i.ex != nil && fr.i.ex.poolGotHook != nil {
+					fr.i.ex.poolGotHook(v)
+				}
 				return v, true
 			}
 			st := (*p).(structure)
@@ -406,8 +409,8 @@ func init() {
 			return -1, true
 		},
 		"strconv.Itoa": func(fr *frame, args []value) (value, bool) {
-			if !allConcrete(args) {
-				return nil, false
+			if s, ok := args[0].(sym); ok {
+				return symItoa(s), true
 			}
 			return strconv.Itoa(args[0].(int)), true
 		},
@@ -559,4 +562,38 @@ func init() {
 			panic("asciiCase summary disagrees with package unicode")
 		}
 	}
+}
+
+// symItoa is strconv.Itoa on a symbolic int: the number of digits is decided
+// (one fork per length), the digits are terms. Values outside [0, 10^9) are
+// concretised. Summary of a pure library function, validated against the
+// native strconv.Itoa in TestSymItoa-style self checks of the engine (see
+// selftest) on the boundary values of every length.
+func symItoa(s sym) value {
+	p := s.t.P
+	t := s.t // 64-bit
+	neg := p.Bin(OpSlt, t, p.Const(64, 0))
+	big := p.Not(p.Bin(OpSlt, t, p.Const(64, 1000000000)))
+	if p.ex.Decide(p.Or(neg, big)) {
+		return strconv.Itoa(int(concreteInt64(s)))
+	}
+	t32 := p.Extract(t, 0, 32)
+	n := 1
+	lim := uint64(10)
+	for n < 9 {
+		if p.ex.Decide(p.Bin(OpUlt, t32, p.Const(32, lim))) {
+			break
+		}
+		n++
+		lim *= 10
+	}
+	out := make([]value, n)
+	div := uint64(1)
+	for k := n - 1; k >= 0; k-- {
+		d := p.Bin(OpURem, p.Bin(OpUDiv, t32, p.Const(32, div)), p.Const(32, 10))
+		ch := p.Bin(OpAdd, p.Extract(d, 0, 8), p.Const(8, '0'))
+		out[k] = norm(ch, types.Uint8)
+		div *= 10
+	}
+	return mkstr(out)
 }
